@@ -317,8 +317,12 @@ def defaults_correspondence(ctx, macro):
     lines = ["%s|%s|%s" % (d, ",".join("%s>%s" % kv for kv in t.items()), ",".join(q)) for _, d, t, q in tabs]
     outs = run_batch(macro, ["defaults"], lines, watchdog=5)
     items, meta = [], []
+    not_run = 0
     for (nm, d, t, q), o in zip(tabs, outs):
         got = {}
+        if any(l.startswith("S\t") for l in o):
+            not_run += 1          # the batch was cut short after repeated hangs
+            continue
         hang = any(l.startswith("X\t") for l in o)
         for l in o:
             if l.startswith("R "):
@@ -333,7 +337,7 @@ def defaults_correspondence(ctx, macro):
     bad = [m for m, c in zip(meta, codes) if c == 3]
     dis = [m for m, c in zip(meta, codes) if c == 2]
     if bad:
-        bad.sort(key=lambda m: len(m["table"]))
+        bad.sort(key=lambda m: (not m["did_not_return"], len(m["table"])))
         core.violation(ctx, "defaults_hang" if bad[0]["did_not_return"] else "defaults_spec", {
             "failing_input": bad[0], "count": len(bad),
             "explanation": "DefaultedLocales::default_of / compute on this table " + ("did not return within 5 s (HANG)" if bad[0]["did_not_return"] else
@@ -341,7 +345,7 @@ def defaults_correspondence(ctx, macro):
     elif dis:
         core.violation(ctx, "correspondence", {"broken": "correspondence Parser/Defaults.v (default_of) vs DefaultedLocales::default_of",
                                                "first_disagreeing_input": dis[0], "disagreements": len(dis)}, no_input=True)
-    return {"tables": len(tabs), "locales_queried": sum(len(m["queried"]) for m in meta), "hangs": sum(m["did_not_return"] for m in meta),
+    return {"tables": len(tabs), "not_run_after_repeated_hangs": not_run, "locales_queried": sum(len(m["queried"]) for m in meta), "hangs": sum(m["did_not_return"] for m in meta),
             "spec_failures": len(bad), "disagreements": len(dis), "shapes": sorted(set(m["shape"].split("/")[0] for m in meta))[:40]}
 
 
